@@ -148,7 +148,9 @@ def p_c18(run):
         for nth, iters in ((8, 40), (16, 20), (3, 60)) if run.tier == "quick" else ((8, 200), (16, 100), (32, 40), (2, 400)):
             p = subprocess.run([exe, str(nth), str(iters)], capture_output=True, text=True, env=env, timeout=1200)
             run.stats["scripts"] += 1; run.stats["ops"] += nth * iters * 40; run.stats["variants"].add(v.name)
-            run.stats["shapes"].add("threads %d x %d on %s" % (nth, iters, v.name)); run.stats["oracle_checks"] += 1
+            for tid in range(nth):
+                run.stats["shapes"].add("workload of thread %d of %d x %d iterations on %s" % (tid, nth, iters, v.name))
+            run.stats["oracle_checks"] += 1
             if len(run.samples) < 3:
                 run.samples.append({"cmd": "threads %d %d" % (nth, iters), "variant": v.name, "output": p.stdout.splitlines()[:3]})
             if p.returncode != 0 or "MISMATCH" in p.stdout or "ThreadSanitizer" in p.stderr:
